@@ -347,11 +347,12 @@ func (name *Name) BlockSize() int {
 // WriteTo serializes the IDBlock to w.
 func (name *Name) WriteTo(w io.Writer) (int64, error) {
 	blockSize := name.BlockSize()
-	if blockSize > 256 {
+	if blockSize > 255 {
+		// the block size is written as one byte
 		return 0, ErrNameTooLong
 	}
 	idLen := len(name.Label)
-	if idLen > 256-3 {
+	if idLen > 255-3 {
 		return 0, ErrNameTooLong
 	}
 	written := int64(0)
